@@ -423,7 +423,7 @@ def run(tier, V):
             fw[res_u] = fw.get(res_u, 0) + 1
     cov = {'evaluations': checks + nw + 1 + nfull + nun + nfw, 'failed_save_scenarios': fw, 'unnamed_buffer_scenarios': nun, 'unnamed_refusals_or_saves_observed': un_ok, 'distinct_nontrivial': dirty + nw + nfull, 'full_table_scenarios': nfull, 'histories': n, 'prefix_probes': checks, 'probes_with_a_dirty_buffer': dirty, 'saved_position_walks': nw,
            'rule': ('%d random histories (modify, u, redo, w, w!, partial own-path writes, writes to other paths, e!, e, e!, e +cmd / e! +cmd with commands that edit, e #, b N/+/-, several commands on one line) over 2-4 files; EVERY prefix is run in a fresh process followed by a probe '
-                    '(list, dump of every open buffer, attempt :q / :e / :b without !, list).  oracle: dumped text vs the file now on disk.  + %d edit/save/undo/redo walks with a position model (both directions) + the 17-path LRU scenario + scenarios with 12-16 buffers open, dirty ones anywhere in the MRU table, then :q/:x/:wq + scenarios that start without a file name and write to pipes, parts, new names before :q/:x/:wq/:e, or (vi) split and switch windows first + saves made to fail part-way by the fault shim (error after a short count, at close, at open) followed by :q / :e / :b. '
+                    '(list, dump of every open buffer, attempt :q / :e / :b without ! or :wq / :x to another path, list).  oracle: dumped text vs the file now on disk.  + %d edit/save/undo/redo walks with a position model (both directions) + the 17-path LRU scenario + scenarios with 12-16 buffers open, dirty ones anywhere in the MRU table, then :q/:x/:wq + scenarios that start without a file name and write to pipes, parts, new names before :q/:x/:wq/:e, or (vi) split and switch windows first + saves made to fail part-way by the fault shim (error after a short count, at close, at open) followed by :q / :e / :b. '
                     'non-trivial = a probe in which some open buffer differed from its file (the refusal path was exercised), or a walk.' % (n, nw)),
            'samples': [{'prefix': [c.decode() for c, _ in make_history(rng('c02', base), 3)][:8]}]}
     assumptions = ['no foreign writer: "content when last read or written" is what is on disk when the probe runs', 'aw/wa options off',
